@@ -40,3 +40,10 @@ from . import gen_effects
 def _effects(repo):
     files, info = gen_effects.generate(repo)
     return files, {k: v for k, v in info.items() if k in ("translated", "hand")}
+from . import gen_python
+
+
+@register_gen("python")
+def _python(repo):
+    files, info = gen_python.generate(repo)
+    return files, {k: v for k, v in info.items() if k in ("translated", "hand")}
